@@ -73,21 +73,21 @@ Qed.
 Definition left_pos (g : fxR) := forall s' g', g = FLeft s' g' -> 0 < s'.
 Definition right_nz (g : fxR) := forall s' g', g = FRight s' g' -> s' <> 0.
 
-Lemma cval_mkLeft s g w y : 0 < s -> lin_ok g -> left_pos g ->
+Lemma cval_mkLeft s g w y : 0 < s -> left_pos g ->
   cval w (mkLeft s g) y = cval w (FLeft s g) y.
 Proof.
-  intros Hs Hok Hlp. destruct (mkLeft_cases s g) as [(s' & g' & -> & ->)| ->]; [|reflexivity].
-  specialize (Hlp s' g' eq_refl). cbn [lin_ok] in Hok.
+  intros Hs Hlp. destruct (mkLeft_cases s g) as [(s' & g' & -> & ->)| ->]; [|reflexivity].
+  specialize (Hlp s' g' eq_refl).
   rewrite (cval_FLeft sqrtf (s * s')) by (try assumption; nra).
   rewrite (cval_FLeft sqrtf s) by assumption. rewrite (cval_FLeft sqrtf s') by assumption.
   rewrite vscal_vscal. replace (1 / s' * (1 / s)) with (1 / (s * s')) by (field; lra).
   destruct (cval w g' _); cbn [rbind]; [|reflexivity]. rewrite escal_escal by assumption. reflexivity.
 Qed.
-Lemma cval_mkRight a g w y : a <> 0 -> lin_ok g -> right_nz g ->
+Lemma cval_mkRight a g w y : a <> 0 -> right_nz g ->
   cval w (mkRight a g) y = cval w (FRight a g) y.
 Proof.
-  intros Ha Hok Hnz. destruct (mkRight_cases a g) as [(s' & g' & -> & ->)| ->]; [|reflexivity].
-  specialize (Hnz s' g' eq_refl). cbn [lin_ok] in Hok.
+  intros Ha Hnz. destruct (mkRight_cases a g) as [(s' & g' & -> & ->)| ->]; [|reflexivity].
+  specialize (Hnz s' g' eq_refl).
   rewrite (cval_FRight sqrtf (a * s')) by (try assumption; nra).
   rewrite (cval_FRight sqrtf a) by assumption. rewrite (cval_FRight sqrtf s') by assumption.
   rewrite vscal_vscal. replace (1 / s' * (1 / a)) with (1 / (a * s')) by (field; lra). reflexivity.
@@ -164,7 +164,7 @@ Proof.
     rewrite Hv in Hcc. inv_ok. apply veq_refl.
   - (* FL2Sq *) unfold ccval in Hcc. cbn [cconj] in Hcc. unfold rmul, quarter in Hcc. numR.
     rewrite Reqb_false in Hcc by lra. cbn [mkLeft] in Hcc.
-    rewrite (cval_FLeft sqrtf) in Hcc by (try lra; exact I).
+    rewrite (cval_FLeft sqrtf) in Hcc by lra.
     unfold Rules.cval in Hcc. cbn [cconj] in Hcc. unfold rmul, quarter in Hcc. numR.
     rewrite Reqb_false in Hcc by lra. cbn in Hcc, Hv. inv_ok. cbn. numR.
     rewrite wdot_vscal_l, wdot_vscal_r. field.
@@ -188,11 +188,10 @@ Proof.
     destruct (cj w f) as [f'|] eqn:E; cbn [rbind] in Hcc; [|discriminate].
     unfold rmul, mul_right in Hcc. numR. rewrite (Reqb_false s 0) in Hcc by lra.
     rewrite is_linear_mkLeft, (Hnl w f' E) in Hcc.
-    assert (Hok' : lin_ok f') by (eapply lin_ok_conj; [eapply wf_lin_ok; exact Hwf | exact E]).
     assert (H1s : 1 / s <> 0) by (apply Rgt_not_eq; apply Rdiv_lt_0_compat; lra).
-    rewrite cval_mkRight in Hcc; [|assumption|apply lin_ok_mkLeft; assumption|].
+    rewrite cval_mkRight in Hcc; [|assumption|].
     2:{ intros s2 g2 Hm. destruct (mkLeft_cases s f') as [(? & ? & _ & Hm')|Hm']; rewrite Hm' in Hm; discriminate. }
-    rewrite (cval_FRight sqrtf) in Hcc by (try assumption; apply lin_ok_mkLeft; assumption).
+    rewrite (cval_FRight sqrtf) in Hcc by assumption.
     rewrite cval_mkLeft in Hcc by (try assumption; exact (conj_left_pos f n w f' Hwf HB E)).
     rewrite (cval_FLeft sqrtf) in Hcc by assumption.
     rewrite (vscal_inv_r (1 / s)) in Hcc by assumption.
@@ -204,9 +203,8 @@ Proof.
     unfold ccval in Hcc. cbn [cconj] in Hcc. numR.
     destruct (cj w f) as [f'|] eqn:E; cbn [rbind] in Hcc; [|discriminate].
     rewrite (Reqb_false s 0) in Hcc by assumption. unfold mul_right in Hcc. rewrite (Hnl w f' E) in Hcc.
-    assert (Hok' : lin_ok f') by (eapply lin_ok_conj; [eapply wf_lin_ok; exact Hwf | exact E]).
     assert (H1s : 1 / s <> 0) by (intros H0; apply Hs; field_simplify_eq in H0; lra).
-    rewrite cval_mkRight in Hcc; [|assumption|assumption|].
+    rewrite cval_mkRight in Hcc; [|assumption|].
     2:{ intros s2 g2 Hm. exact (Moreau.conj_right_nz f n w f' Hwf E s2 g2 Hm). }
     rewrite (cval_FRight sqrtf) in Hcc by assumption.
     replace (1 / (1 / s)) with s in Hcc by (field; assumption).
@@ -233,7 +231,7 @@ Proof.
     numR. rewrite (cval_FQuadPert0 sqrtf) in Hcc. rewrite (Reqb_true 0 0) in Hcc by reflexivity.
     rewrite (ccval_of_conj w f f' _ E) in Hcc.
     exact (IHf n w (vsub x t) vx vxx Hwf HB Lw ltac:(rewrite vsub_length; congruence) Hv Hcc).
-  - (* FQuadPert *) cbn [wf] in Hwf. destruct Hwf as (Ha & Lu & Hwf & _).
+  - (* FQuadPert *) cbn [wf] in Hwf. destruct Hwf as (Ha & Lu & Hwf).
     unfold ccval in Hcc. cbn [cconj] in Hcc. numR.
     destruct (Reqb_spec a 0) as [->|Hna].
     2:{ rewrite (cval_FDefConj sqrtf) in Hcc. rewrite Hv in Hcc. inv_ok. apply veq_refl. }
@@ -300,29 +298,3 @@ Proof.
     + intros w f' H. cbn in H. injection H as <-. reflexivity.
 Qed.
 
-(* The full statement (without [B]) is FALSE of the faithful model -- and of the library:
-   e = 2 * (<b, .> + 0)  (a FunctionalSum of two functionals flagged linear) on rn(1), b = [1], x = [1]:
-   e(x) = 2 but e.convex_conj.convex_conj(x) = 1, because FunctionalDefaultConvexConjugate inherits
-   the linear flag of its argument, so that Functional.__mul__ builds a LeftScalarMult where the rule
-   s * f~ * (1/s) needs a RightScalarMult (finding defaultconj-linear-flag). *)
-Lemma biconj_refuted_proof :
-  exists (e e' e'' : fxR) (x : Rvec) (vx vxx : extR),
-    wf 1 e /\ value sqrt 0 e [1] x = Ok vx /\ cconj [1] e = Ok e' /\ cconj [1] e' = Ok e'' /\
-    value sqrt 0 e'' [1] x = Ok vxx /\ ~ veq (Ok vxx) (Ok vx).
-Proof.
-  exists (FLeft 2 (FSum (FQuadS None (Some [1]) 0) (FConst 0))).
-  eexists. eexists. exists [1]. eexists. eexists.
-  split; [cbn [wf length]; repeat split; lra|].
-  split; [cbn [value rbind radd]; reflexivity|].
-  split.
-  { cbn [cconj]. numR. rewrite (Rleb_false 2 0) by lra. cbn [rbind]. unfold rmul, mul_right. numR.
-    rewrite (Reqb_false 2 0) by lra. cbn [mkLeft is_linear]. numR. rewrite (Reqb_true 0 0) by reflexivity.
-    cbn [andb mkLeft]. reflexivity. }
-  split.
-  { cbn [cconj]. numR.
-    assert (H1 : 1 / 2 * 2 = 1) by field. rewrite H1. rewrite (Rleb_false 1 0) by lra. cbn [rbind].
-    unfold rmul, mul_right. numR. rewrite (Reqb_false 1 0) by lra.
-    cbn [mkLeft is_linear]. numR. rewrite (Reqb_true 0 0) by reflexivity. cbn [andb mkLeft]. reflexivity. }
-  split; [cbn [value rbind radd escal eadd]; reflexivity|].
-  cbn. numR. unfold wdot, vmul. cbn. numR. lra.
-Qed.
